@@ -270,6 +270,25 @@ func c03Random(c *caseCtx) {
 			}
 		}
 	}
+	if method == "owa" && c.idx%16 == 10 {
+		// weights that are unequal but closer than 1e-9, in no particular order, and values far apart: which weight meets
+		// which value is visible well above the 1e-8 rounding
+		w := g.M["methodParameters"].(M)["weights"].(M)
+		ks := sortedKeysM(w)
+		for i, pi := range c.rng.Perm(len(ks)) {
+			w[ks[i]] = 0.4 + float64(pi)*5e-10
+		}
+		for _, a := range g.M["knownAlternatives"].([]interface{}) {
+			cv := a.(M)["criteria"].(M)
+			for k := range cv {
+				cv[k] = float64(c.rng.Intn(2000)) - 500
+			}
+		}
+		for _, cr := range g.M["criteria"].([]interface{}) {
+			delete(cr.(M), "valuesRange")
+		}
+		c.count("near_equal_owa_weights", 1)
+	}
 	if c.idx%16 == 5 {
 		// large magnitudes (1e6 .. 1e13 times the usual values): the 1e-8 rounding must not go through a narrower type
 		f := math.Pow(10, float64(6+c.rng.Intn(8)))
